@@ -90,7 +90,9 @@ func (pass *FlattenDisjunctions) flattenDisjunction(schema *ast.Schema, disjunct
 
 		resolved, found := schema.Resolve(branch)
 		if !found {
-			// FIXME: error here?
+			// a reference that can not be followed from here (into another
+			// package, ...) is kept as it is.
+			addBranch(typeName, branch)
 			continue
 		}
 
